@@ -572,6 +572,15 @@ func roundsZeroReturns(fd *ast.FuncDecl) bool {
 
 // exprPoly normalises an integer expression over local names: identifiers resolve through single-definition locals,
 // spec.X becomes X, len(e) becomes an atom.
+// polySelfObj / polySelfText: the variable (or field path) being assigned by the statement whose right-hand side is read.
+// polyAbsorbed (when set) collects the positions of the assignments whose value was read into a later assignment of
+// the same variable (x = f(x) resolved through the x = … that reaches it): the later formula then spells them out.
+var (
+	polySelfObj  types.Object
+	polySelfText string
+	polyAbsorbed map[token.Pos]bool
+)
+
 func exprPoly(info *types.Info, e ast.Expr, defs map[types.Object]localDef, stop map[string]bool, depth int) (Poly, bool) {
 	e = ast.Unparen(e)
 	if depth > 48 {
@@ -586,12 +595,30 @@ func exprPoly(info *types.Info, e ast.Expr, defs map[types.Object]localDef, stop
 			return polyAtom("const" + tv.Value.ExactString()), true
 		}
 	}
+	// the target of the assignment being read, mentioned on its own right-hand side, is "the previous value": one
+	// name for it whatever the target is called (x = max(x, 1) is the same update of any x). Resolved forms look
+	// through it first when exactly one definition reaches.
+	if polySelfText != "" {
+		if sel, ok := e.(*ast.SelectorExpr); ok && strings.ReplaceAll(exprText(info, sel), " ", "") == polySelfText {
+			return polyAtom("§self"), true
+		}
+	}
+	isSelf := false
+	if id, isId := e.(*ast.Ident); isId && polySelfObj != nil && info.ObjectOf(id) == polySelfObj {
+		if defs == nil {
+			return polyAtom("§self"), true
+		}
+		isSelf = true
+	}
 	if id, isId := e.(*ast.Ident); isId && polyAbstract {
 		if d, ok := defs[info.Uses[id]]; ok && d.pos == 0 && !stop[id.Name] {
 			return exprPoly(info, d.rhs, defs, stop, depth+1)
 		}
 		if defs != nil && polyReach != nil && !stop[id.Name] {
 			if d, ok := polyReach.at(info.Uses[id], id); ok && d.pos == 0 {
+				if isSelf && polyAbsorbed != nil {
+					polyAbsorbed[polyReach.last.Pos()] = true
+				}
 				return exprPoly(info, d.rhs, defs, stop, depth+1)
 			}
 		}
@@ -601,6 +628,9 @@ func exprPoly(info *types.Info, e ast.Expr, defs map[types.Object]localDef, stop
 				return pp, true
 			}
 		}
+	}
+	if polyAbstract && isSelf {
+		return polyAtom("§self"), true
 	}
 	if polyAbstract {
 		switch x := e.(type) {
@@ -615,6 +645,9 @@ func exprPoly(info *types.Info, e ast.Expr, defs map[types.Object]localDef, stop
 	switch x := e.(type) {
 	case *ast.Ident:
 		if stop[x.Name] {
+			if isSelf {
+				return polyAtom("§self"), true
+			}
 			return polyAtom(x.Name), true
 		}
 		if d, ok := defs[info.Uses[x]]; ok && d.pos == 0 {
@@ -622,8 +655,14 @@ func exprPoly(info *types.Info, e ast.Expr, defs map[types.Object]localDef, stop
 		}
 		if defs != nil && polyReach != nil {
 			if d, ok := polyReach.at(info.Uses[x], x); ok && d.pos == 0 {
+				if isSelf && polyAbsorbed != nil {
+					polyAbsorbed[polyReach.last.Pos()] = true
+				}
 				return exprPoly(info, d.rhs, defs, stop, depth+1)
 			}
+		}
+		if isSelf {
+			return polyAtom("§self"), true
 		}
 		if a, ok := polyArgs[info.Uses[x]]; ok && depth < 40 {
 			if pp, ok := exprPoly(info, a, defs, stop, depth+8); ok {
